@@ -527,6 +527,20 @@ pub struct FrameCase {
     pub perm_prefix: bool,
 }
 
+/// Image header + frame header + TOC of the case, followed by `tail` (C01 feeds this to the whole decoder).
+pub fn frame_case_stream(c: &FrameCase, tail: &[u8]) -> Vec<u8> {
+    let mut w = BitWriter::new();
+    c.img.write(&mut w, &Sel::default());
+    let mut out = w.finish();
+    let mut w = BitWriter::new();
+    c.fh.write(&mut w, &c.sel, &c.img);
+    let opts = CodeOpts { use_prefix: c.perm_prefix, ..Default::default() };
+    write_toc(&mut w, &c.sel, &c.toc_sizes, c.perm.as_deref(), &opts);
+    out.extend_from_slice(&w.finish());
+    out.extend_from_slice(tail);
+    out
+}
+
 fn num_toc_entries(img: &ImageHeader, fh: &FrameHeader) -> usize {
     let (w, h) = fh.frame_size(img);
     let up = fh.upsampling.max(1);
@@ -545,6 +559,12 @@ fn num_toc_entries(img: &ImageHeader, fh: &FrameHeader) -> usize {
 }
 
 pub fn frame_case(t: &mut Tape) -> Option<FrameCase> {
+    frame_case_ex(t, false)
+}
+
+/// `hostile`: keep the combinations that the format forbids or that the reference is unsure about (used by
+/// C01, which only asks for "no panic", not for agreement).
+pub fn frame_case_ex(t: &mut Tape, hostile: bool) -> Option<FrameCase> {
     // context
     let ctx = t.choose(6);
     let mut img = ImageHeader::simple(300, 200, false, 8);
@@ -654,18 +674,20 @@ pub fn frame_case(t: &mut Tape) -> Option<FrameCase> {
     };
     // normalise fields that are not coded so that the expectation equals the defaults
     // oracle-uncertain zones (DESIGN.md section 8)
-    if fh.blending_info.mode == BLEND_MUL && ne == 0 {
-        return None;
-    }
-    if ne > 0 && fh.ec_blending_info.iter().any(|b| (b.mode == BLEND_REPLACE) != (fh.blending_info.mode == BLEND_REPLACE)) {
-        return None;
-    }
-    if fh.ec_blending_info.iter().any(|b| b.mode == BLEND_MUL) && ne == 0 {
-        return None;
-    }
-    // constraints of the format that make a header invalid rather than different
-    if fh.flags & FLAG_USE_LF_FRAME != 0 && fh.frame_type == FT_LF && fh.lf_level >= 4 {
-        return None;
+    if !hostile {
+        if fh.blending_info.mode == BLEND_MUL && ne == 0 {
+            return None;
+        }
+        if ne > 0 && fh.ec_blending_info.iter().any(|b| (b.mode == BLEND_REPLACE) != (fh.blending_info.mode == BLEND_REPLACE)) {
+            return None;
+        }
+        if fh.ec_blending_info.iter().any(|b| b.mode == BLEND_MUL) && ne == 0 {
+            return None;
+        }
+        // constraints of the format that make a header invalid rather than different
+        if fh.flags & FLAG_USE_LF_FRAME != 0 && fh.frame_type == FT_LF && fh.lf_level >= 4 {
+            return None;
+        }
     }
     if fh.all_default {
         // nothing else is coded
@@ -921,6 +943,11 @@ pub fn run_frame_case(c: &FrameCase) -> Result<(), (String, String)> {
         let toc = match jxl_frame::Frame::parse(&mut bs2, ctx) {
             Ok(fr) => {
                 let groups: Vec<(String, u32)> = fr.toc().iter_bitstream_order().map(|g| (format!("{:?}", g.kind), g.size)).collect();
+                // the lookup used by every section parser: kind -> position in the bitstream
+                let lookups: Vec<usize> = fr.toc().iter_bitstream_order().map(|g| fr.toc().group_index_bitstream_order(g.kind)).collect();
+                if let Some(i) = (0..lookups.len()).find(|&i| lookups[i] != i) {
+                    return Err(format!("toc-lookup: the section at bitstream position {i} ({}) is looked up at position {}", groups[i].0, lookups[i]));
+                }
                 Some((groups, bs2.num_read_bits()))
             }
             Err(e) => return Err(format!("frame+toc: {e}")),
@@ -1003,9 +1030,43 @@ pub fn main(args: &crate::Args) {
     let (itapes, _) = collect_tapes(bound, 0, |t| {
         let _ = image_case(t);
     });
-    let (ftapes, _) = collect_tapes(fbound, 0, |t| {
+    let (mut ftapes, _) = collect_tapes(fbound, 0, |t| {
         let _ = frame_case(t);
     });
+    // coupled full product: whether save_as_reference / save_before_ct / blending / duration are coded at all depends on
+    // frame type x is_last x duration x save slot x blend mode x crop x animation together (tape positions: 0 context,
+    // 2 type, 15 crop, 17 blend mode, 22 duration, 24 not-last, 25 save slot, 26 save_before_ct)
+    {
+        let len = ftapes[0].len();
+        for ctx in [0u32, 3] {
+            for ft in 0..4u32 {
+                for crop in [0u32, 1, 6] {
+                    for bm in [0u32, 1, 2] {
+                        for dur in 0..2u32 {
+                            for not_last in 0..2u32 {
+                                for save in 0..2u32 {
+                                    for sbct in 0..2u32 {
+                                        let mut t = vec![0u32; len];
+                                        t[0] = ctx;
+                                        t[2] = ft;
+                                        t[15] = crop;
+                                        t[17] = bm;
+                                        t[22] = dur;
+                                        t[24] = not_last;
+                                        t[25] = save;
+                                        t[26] = sbct;
+                                        ftapes.push(t);
+                                    }
+                                }
+                            }
+                        }
+                    }
+                }
+            }
+        }
+        ftapes.sort();
+        ftapes.dedup();
+    }
     let ires = par_map(&itapes, n_threads(), |_, tp| {
         let mut t = Tape::from_answers(tp);
         match image_case(&mut t) {
